@@ -515,9 +515,16 @@ pub fn property(_tier: Tier) -> Property {
                         ),
                     ))
                         .prop_map(|(frame, ops, owned)| FrameCase { frame, ops, owned })
+                        .prop_map(|c| c)
+                        .boxed()
+                        .prop_flat_map(|c| crate::streamlab::on_used_connection(Just(c)))
                         .boxed()
                 }),
-                check: Box::new(check_frame),
+                check: Box::new(|u: &crate::streamlab::OnUsedConnection<_>| {
+                    let mut r = crate::streamlab::with_history(&u.history, || check_frame(&u.case));
+                    u.classify(&mut r);
+                    r
+                }),
             }),
             Box::new(RandomPart {
                 name: "response_iter",
@@ -534,8 +541,14 @@ pub fn property(_tier: Tier) -> Property {
                     (resp, prop::collection::vec(end(), 0..10usize), prop::collection::vec(end(), 0..10usize))
                         .prop_map(|(resp, borrowed, owned)| RespCase { resp, borrowed, owned })
                         .boxed()
+                        .prop_flat_map(|c| crate::streamlab::on_used_connection(Just(c)))
+                        .boxed()
                 }),
-                check: Box::new(check_resp),
+                check: Box::new(|u: &crate::streamlab::OnUsedConnection<_>| {
+                    let mut r = crate::streamlab::with_history(&u.history, || check_resp(&u.case));
+                    u.classify(&mut r);
+                    r
+                }),
             }),
         ],
         assumptions: vec!["the Vec/VecDeque model is the specification of 'ordered multimap' / 'frames then error'"],
